@@ -415,6 +415,7 @@ Qed.
 
 (** ** witnesses (concrete texts; evaluated by the kernel) *)
 Require Import Coq.Strings.String Coq.Strings.Ascii.
+Import List ListNotations.
 Definition B (s : string) : bytes := List.map N_of_ascii (list_ascii_of_string s).
 
 (** the planner's own CREATE TABLE for a column whose DEFAULT is the string 'check (x)' *)
@@ -474,4 +475,196 @@ Proof.
     + apply Hpl; [reflexivity|]. apply (bal_par (B "1") 0 [] 0).
       * apply (Hpl (B "1") eq_refl [] 0%nat). constructor.
       * constructor.
+Qed.
+
+(** ** the partial-index predicate *)
+Fixpoint occurs_cs (p s : bytes) : bool :=
+  match lit_cs p s with
+  | Some _ => true
+  | None => match s with [] => false | _ :: s' => occurs_cs p s' end
+  end.
+
+Lemma lit_cs_self p r : lit_cs p (p ++ r) = Some r.
+Proof. induction p as [|a p IH]; simpl; [reflexivity|]. rewrite N.eqb_refl. exact IH. Qed.
+
+(** a literal cannot match across a byte that is not one of its bytes *)
+Lemma lit_cs_app_break p u c y r :
+  lit_cs p (u ++ c :: y) = Some r -> (exists r', lit_cs p u = Some r') \/ In c p.
+Proof.
+  revert u. induction p as [|x p IH]; intros u H; simpl in *.
+  - left. eauto.
+  - destruct u as [|b u]; simpl in *.
+    + right. destruct (N.eqb x c) eqn:E; [|discriminate]. left. apply N.eqb_eq in E. auto.
+    + destruct (N.eqb x b); [|discriminate]. destruct (IH u H) as [?|?]; auto.
+Qed.
+
+Lemma occurs_cs_none p x : occurs_cs p x = false -> forall k, lit_cs p (skipn k x) = None.
+Proof.
+  induction x as [|b x IH]; intros H k.
+  - simpl in H. destruct k; simpl; destruct (lit_cs p []); auto; discriminate.
+  - simpl in H. destruct (lit_cs p (b :: x)) eqn:E; [discriminate|].
+    destruct k; simpl; [exact E|apply IH; exact H].
+Qed.
+
+Lemma index_of_hit p s r : lit_cs p s = Some r -> index_of p s = Some r.
+Proof. intro H. destruct s; simpl; simpl in H; rewrite H; reflexivity. Qed.
+Lemma index_of_miss p b s : lit_cs p (b :: s) = None -> index_of p (b :: s) = index_of p s.
+Proof. intro H. cbn [index_of]. rewrite H. reflexivity. Qed.
+
+(** [pre] holds no WHERE and ends in a byte that is not a letter of WHERE (the planner
+    writes ") " before the keyword): the first WHERE of the statement is the keyword *)
+Lemma index_of_where pre c rest : occurs_cs K_WHERE pre = false -> ~ In c K_WHERE ->
+  index_of K_WHERE (pre ++ c :: K_WHERE ++ rest) = Some rest.
+Proof.
+  intros Hp Hc. induction pre as [|b pre IH].
+  - cbn [app].
+    destruct (lit_cs K_WHERE (c :: K_WHERE ++ rest)) eqn:E.
+    + exfalso. destruct (lit_cs_app_break K_WHERE [] c (K_WHERE ++ rest) b E) as [(r' & H)|H]; [discriminate|auto].
+    + rewrite (index_of_miss _ _ _ E). apply index_of_hit. apply lit_cs_self.
+  - change ((b :: pre) ++ c :: K_WHERE ++ rest) with (b :: pre ++ c :: K_WHERE ++ rest).
+    destruct (lit_cs K_WHERE (b :: pre ++ c :: K_WHERE ++ rest)) eqn:E.
+    + exfalso. destruct (lit_cs_app_break K_WHERE (b :: pre) c _ _ E) as [(r' & H)|H]; [|auto].
+      pose proof (occurs_cs_none _ _ Hp 0%nat) as H0. cbn [skipn] in H0. rewrite H0 in H. discriminate.
+    + rewrite (index_of_miss _ _ _ E). apply IH. cbn [occurs_cs] in Hp. destruct (lit_cs K_WHERE (b :: pre)); [discriminate|exact Hp].
+Qed.
+
+Theorem index_predicate_printed pre c p : occurs_cs K_WHERE pre = false -> ~ In c K_WHERE ->
+  index_predicate (pre ++ c :: K_WHERE ++ p) = Some (trim_space p).
+Proof. intros H1 H2. unfold index_predicate. rewrite index_of_where by assumption. reflexivity. Qed.
+
+
+(** ** leftmost match: a generic finder *)
+Section Finder.
+Variable A : Type.
+Variable m : bytes -> option A.
+Fixpoint find_first (s : bytes) : option A :=
+  match m s with
+  | Some x => Some x
+  | None => match s with [] => None | _ :: s' => find_first s' end
+  end.
+Definition no_start_before (full : bytes) (n : nat) : bool :=
+  forallb (fun i => match m (skipn i full) with None => true | Some _ => false end) (seq 0 n).
+Lemma no_start_before_tail b full n :
+  no_start_before (b :: full) (S n) = true -> m (b :: full) = None /\ no_start_before full n = true.
+Proof.
+  unfold no_start_before. cbn [seq forallb skipn]. intro H. apply andb_true_iff in H. destruct H as [H0 H].
+  split; [destruct (m (b :: full)); [discriminate|reflexivity]|].
+  rewrite <- seq_shift in H. rewrite forallb_forall in H. apply forallb_forall. intros i Hi.
+  apply (H (S i)). apply in_map. exact Hi.
+Qed.
+Lemma find_first_skip pre s : no_start_before (pre ++ s) (length pre) = true -> find_first (pre ++ s) = find_first s.
+Proof.
+  induction pre as [|b pre IH]; [reflexivity|]. intro H.
+  change ((b :: pre) ++ s) with (b :: pre ++ s) in *. cbn [length] in H.
+  destruct (no_start_before_tail _ _ _ H) as [H0 H1]. cbn [find_first]. rewrite H0. exact (IH H1).
+Qed.
+End Finder.
+
+Lemma find_gen_first name s : find_gen name s = find_first _ (match_gen_at name) s.
+Proof. induction s as [|b s IH]; cbn [find_gen find_first]; [reflexivity|]. destruct (match_gen_at name (b :: s)); [reflexivity|exact IH]. Qed.
+Lemma find_autoinc_first s : find_autoinc s = find_first _ match_autoinc_at s.
+Proof. induction s as [|b s IH]; cbn [find_autoinc find_first]; [reflexivity|]. destruct (match_autoinc_at (b :: s)); [reflexivity|exact IH]. Qed.
+
+(** ** setGenExpr on a printed generated column *)
+Definition not_comma (c : N) : bool := negb (N.eqb c ch_comma).
+
+Lemma tail_as_not_a c s : N.eqb (lower 65) (lower c) = false -> tail_as (c :: s) = None.
+Proof. intro H. unfold tail_as, K_AS. rewrite (lit_ci_first_false _ _ _ _ H). reflexivity. Qed.
+
+Lemma last_as_skip c s : not_comma c = true -> N.eqb (lower 65) (lower c) = false -> last_as (c :: s) = last_as s.
+Proof.
+  intros Hc Ha. cbn [last_as]. unfold not_comma in Hc. apply negb_true_iff in Hc. rewrite Hc.
+  rewrite (tail_as_not_a _ _ Ha). destruct (last_as s); reflexivity.
+Qed.
+
+Lemma last_as_spaces w s : forallb is_space w = true -> last_as (w ++ s) = last_as s.
+Proof.
+  induction w as [|c w IH]; [reflexivity|]. intro H. simpl in H. apply andb_true_iff in H. destruct H as [Hc H].
+  change ((c :: w) ++ s) with (c :: w ++ s). rewrite last_as_skip; [exact (IH H)| |].
+  - unfold is_space in Hc. unfold not_comma, ch_comma.
+    repeat (apply orb_true_iff in Hc; destruct Hc as [Hc|Hc]); apply N.eqb_eq in Hc; subst; reflexivity.
+  - unfold is_space in Hc.
+    repeat (apply orb_true_iff in Hc; destruct Hc as [Hc|Hc]); apply N.eqb_eq in Hc; subst; reflexivity.
+Qed.
+
+Lemma last_as_prefix x s r : forallb not_comma x = true -> last_as s = Some r -> last_as (x ++ s) = Some r.
+Proof.
+  induction x as [|c x IH]; [auto|]. intros H Hs. simpl in H. apply andb_true_iff in H. destruct H as [Hc H].
+  change ((c :: x) ++ s) with (c :: x ++ s). cbn [last_as]. unfold not_comma in Hc. apply negb_true_iff in Hc.
+  rewrite Hc, (IH H Hs). reflexivity.
+Qed.
+
+Lemma skip_spaces_tail w s : forallb is_space w = true -> (match s with c :: _ => is_space c = false | [] => True end) ->
+  skip_while is_space (w ++ s) = s.
+Proof.
+  induction w as [|c w IH]; intros H Hs.
+  - destruct s as [|c s]; [reflexivity|]. simpl. rewrite Hs. reflexivity.
+  - simpl in H. apply andb_true_iff in H. destruct H as [Hc H]. simpl. rewrite Hc. exact (IH H Hs).
+Qed.
+
+Lemma tail_as_hit w z : forallb is_space w = true -> tail_as (K_AS ++ w ++ ch_lp :: z) = Some (ch_lp :: z).
+Proof.
+  intro Hw. unfold tail_as. rewrite lit_ci_self. rewrite skip_spaces_tail by (exact Hw || reflexivity). reflexivity.
+Qed.
+
+Lemma last_as_cons c s : N.eqb c ch_comma = false ->
+  last_as (c :: s) = match last_as s with Some r => Some r | None => tail_as (c :: s) end.
+Proof. intro H. cbn [last_as]. rewrite H. reflexivity. Qed.
+
+(** the intended AS ( is the last one of its stretch *)
+Lemma last_as_at x w e' y :
+  forallb not_comma x = true -> forallb is_space w = true -> last_as (e' ++ y) = None ->
+  last_as (x ++ K_AS ++ w ++ (ch_lp :: e') ++ y) = Some ((ch_lp :: e') ++ y).
+Proof.
+  intros Hx Hw Hy. apply last_as_prefix; [exact Hx|].
+  change (K_AS ++ w ++ (ch_lp :: e') ++ y) with (65 :: 83 :: w ++ ch_lp :: e' ++ y).
+  rewrite last_as_cons by reflexivity.
+  assert (last_as (83 :: w ++ ch_lp :: e' ++ y) = None) as ->.
+  { rewrite last_as_skip by reflexivity. rewrite last_as_spaces by exact Hw.
+    rewrite last_as_skip by reflexivity. exact Hy. }
+  change (65 :: 83 :: w ++ ch_lp :: e' ++ y) with (K_AS ++ w ++ ch_lp :: e' ++ y).
+  rewrite tail_as_hit by exact Hw. reflexivity.
+Qed.
+
+Lemma skip_quotes_name n r : name_ok n -> skip_while is_quote (ch_bt :: n ++ r) = n ++ r.
+Proof.
+  intros [Hne Hw]. destruct n as [|c n]; [contradiction|]. simpl in Hw. apply andb_true_iff in Hw. destruct Hw as [Hc _].
+  cbn [skip_while]. change (is_quote ch_bt) with true. cbn iota. cbn [app skip_while].
+  assert (is_quote c = false) as ->; [|reflexivity].
+  unfold is_quote. unfold is_word in Hc.
+  destruct (N.eqb c 34) eqn:E1; [apply N.eqb_eq in E1; subst; discriminate|].
+  destruct (N.eqb c 96) eqn:E2; [apply N.eqb_eq in E2; subst; discriminate|]. reflexivity.
+Qed.
+
+(** C03_regex_inverts_printer, generated columns: the column is written after an opening
+    byte [c] ("(" for the first column, "," otherwise), spaces, `name`, any comma-free text
+    [mid] (type, NULL / NOT NULL), AS, spaces, the wrapped expression [e]; if no match of the
+    column's regexp starts before [c] and no further "AS (" follows in the same comma-free
+    stretch, setGenExpr returns exactly [e]. *)
+Theorem set_gen_expr_printed name pre c sp1 mid w e rest :
+  name_ok name -> open_ch c = true -> forallb is_space sp1 = true ->
+  forallb not_comma mid = true -> forallb is_space w = true -> wrapped e ->
+  last_as (tl e ++ rest) = None ->
+  no_start_before _ (match_gen_at name)
+    (pre ++ c :: sp1 ++ bt_ident name ++ mid ++ K_AS ++ w ++ e ++ rest) (length pre) = true ->
+  set_gen_expr name (pre ++ c :: sp1 ++ bt_ident name ++ mid ++ K_AS ++ w ++ e ++ rest) = GenOk e.
+Proof.
+  intros Hn Hc Hs1 Hmid Hw He Hlast Hpre.
+  destruct He as (b & p & -> & Hb). set (e := ch_lp :: b ++ [ch_rp]) in *.
+  assert (wrapped e) as He by (exists b, p; auto).
+  unfold set_gen_expr. destruct Hn as [Hne Hwd]. rewrite Hwd. cbn [negb orb].
+  destruct name as [|n0 name'] eqn:En; [contradiction|]. rewrite <- En in *. cbn iota.
+  rewrite find_gen_first, (find_first_skip _ _ _ _ Hpre).
+  assert (match_gen_at name (c :: sp1 ++ bt_ident name ++ mid ++ K_AS ++ w ++ e ++ rest) = Some (e ++ rest)) as Hm.
+  { unfold match_gen_at. rewrite Hc. unfold bt_ident.
+    change (sp1 ++ (ch_bt :: name ++ [ch_bt]) ++ mid ++ K_AS ++ w ++ e ++ rest)
+      with (sp1 ++ ch_bt :: (name ++ [ch_bt]) ++ mid ++ K_AS ++ w ++ e ++ rest).
+    rewrite skip_spaces_tail by (exact Hs1 || reflexivity).
+    rewrite <- app_assoc. rewrite skip_quotes_name by (split; [rewrite En; discriminate|exact Hwd]).
+    rewrite lit_cs_self.
+    change ([ch_bt] ++ mid ++ K_AS ++ w ++ e ++ rest) with ((ch_bt :: mid) ++ K_AS ++ w ++ (ch_lp :: b ++ [ch_rp]) ++ rest).
+    apply last_as_at; [simpl; rewrite Hmid; reflexivity|exact Hw|exact Hlast]. }
+  destruct (c :: sp1 ++ bt_ident name ++ mid ++ K_AS ++ w ++ e ++ rest) eqn:Efull; [discriminate|].
+  cbn [find_first]. rewrite Hm. rewrite (scan_expr_wrapped e rest He).
+  subst e. reflexivity.
 Qed.
